@@ -128,7 +128,7 @@ func factsCorr(c *hc.Ctx) {
 
 type ev struct {
 	t    int
-	kind byte // r w l u g p o
+	kind byte // r w l u g p o a
 	name string
 	v    int
 }
@@ -142,7 +142,7 @@ func (e ev) tok() string {
 }
 
 // fixed protection of the generated worlds: x by mutex m, y by ownership of pooled object (p,1),
-// z by once o (body o = [z]), w read-only.
+// z by once o (body o = [z]), w read-only, c only through atomic operations (kind 'a').
 func genTrace(c *hc.Ctx, disciplined bool) []ev {
 	nt := 2 + c.Intn(3)
 	n := 6 + c.Intn(18)
@@ -152,7 +152,17 @@ func genTrace(c *hc.Ctx, disciplined bool) []ev {
 	for len(tr) < n {
 		t := c.Intn(nt)
 		holds := func(tok string) bool { return holder[tok] == t+1 }
-		switch c.Intn(9) {
+		switch c.Intn(10) {
+		case 9: // c
+			if disciplined || c.Chance(0.7) {
+				tr = append(tr, ev{t, 'a', "c", 0})
+			} else {
+				k := byte('r')
+				if c.Bool() {
+					k = 'w'
+				}
+				tr = append(tr, ev{t, k, "c", 0})
+			}
 		case 0: // lock/unlock m
 			if holds("m") {
 				tr = append(tr, ev{t, 'u', "m", 0})
@@ -229,6 +239,7 @@ func vcRaces(tr []ev, nt int) (races []string, obeys map[string]bool) {
 		idx, t, clk int
 		write       bool
 		x           string
+		atomic      bool
 	}
 	var accs []acc
 	snap := make([][]int, len(tr))
@@ -237,7 +248,7 @@ func vcRaces(tr []ev, nt int) (races []string, obeys map[string]bool) {
 	for i := range held {
 		held[i] = map[string]bool{}
 	}
-	obeys = map[string]bool{"x": true, "y": true, "z": true, "w": true}
+	obeys = map[string]bool{"x": true, "y": true, "z": true, "w": true, "c": true}
 	for j, e := range tr {
 		C := clock[e.t]
 		C[e.t]++
@@ -270,11 +281,19 @@ func vcRaces(tr []ev, nt int) (races []string, obeys map[string]bool) {
 		case 'o':
 			if onceVC == nil {
 				onceVC = append([]int(nil), C...)
-				accs = append(accs, acc{j, e.t, C[e.t], true, "z"})
+				accs = append(accs, acc{j, e.t, C[e.t], true, "z", false})
+			}
+		case 'a':
+			// an atomic operation: counts as a write, synchronises with nothing in the model
+			accs = append(accs, acc{j, e.t, C[e.t], true, e.name, true})
+			if e.name != "c" {
+				obeys[e.name] = false
 			}
 		case 'r', 'w':
-			accs = append(accs, acc{j, e.t, C[e.t], e.kind == 'w', e.name})
+			accs = append(accs, acc{j, e.t, C[e.t], e.kind == 'w', e.name, false})
 			switch e.name {
+			case "c":
+				obeys["c"] = false
 			case "x":
 				if !held[e.t]["m"] {
 					obeys["x"] = false
@@ -297,7 +316,7 @@ func vcRaces(tr []ev, nt int) (races []string, obeys map[string]bool) {
 	for b := range accs {
 		for a := 0; a < b; a++ {
 			p, q := accs[a], accs[b]
-			if p.x != q.x || p.t == q.t || !(p.write || q.write) {
+			if p.x != q.x || p.t == q.t || !(p.write || q.write) || (p.atomic && q.atomic) {
 				continue
 			}
 			if snap[q.idx][p.t] >= p.clk {
@@ -339,7 +358,7 @@ func traceCorr(c *hc.Ctx) {
 			toks = append(toks, e.tok())
 		}
 		races, obeys := vcRaces(tr, nt)
-		all := obeys["x"] && obeys["y"] && obeys["z"] && obeys["w"]
+		all := obeys["x"] && obeys["y"] && obeys["z"] && obeys["w"] && obeys["c"]
 		if disc && !all {
 			c.Fail("harness-bug:disciplined-generator", "disciplined trace does not obey", strings.Join(toks, " "))
 		}
@@ -358,7 +377,7 @@ func traceCorr(c *hc.Ctx) {
 		if len(races) > 0 {
 			rs = strings.Join(races, ",")
 		}
-		c.Case("TRACE "+strings.Join(toks, " "), "=", fmt.Sprintf("wf=1 obeys=%s%s%s%s races=%s", hc.B(obeys["x"]), hc.B(obeys["y"]), hc.B(obeys["z"]), hc.B(obeys["w"]), rs))
+		c.Case("TRACE "+strings.Join(toks, " "), "=", fmt.Sprintf("wf=1 obeys=%s%s%s%s%s races=%s", hc.B(obeys["x"]), hc.B(obeys["y"]), hc.B(obeys["z"]), hc.B(obeys["w"]), hc.B(obeys["c"]), rs))
 		c.Distinct("trace:" + strings.Join(toks, " "))
 	}
 }
@@ -375,6 +394,61 @@ func genText(c *hc.Ctx) string {
 	return strings.Join(w, " ")
 }
 
+// nested: operands whose RESULT has nested contours (plates with n x n holes, concentric rings): only
+// for those does the result tracer walk the prev chains down to segments of squares finished long
+// before, so only those expose objects that went back to a pool too early.
+func plate(n int, dx float64) (outer, holes *canvas.Path) {
+	w := 3*float64(n) + 1
+	outer = canvas.Rectangle(w, w).Translate(dx, 0)
+	holes = &canvas.Path{}
+	for i := 0; i < n; i++ {
+		for j := 0; j < n; j++ {
+			x, y := dx+1+3*float64(i), 1+3*float64(j)
+			holes.MoveTo(x, y)
+			holes.LineTo(x+2, y)
+			holes.LineTo(x+2, y+2)
+			holes.LineTo(x, y+2)
+			holes.Close()
+		}
+	}
+	return
+}
+
+func genNested(c *hc.Ctx) c20ops.Op {
+	data := func(p *canvas.Path) []float64 { return append([]float64(nil), p.Data()...) }
+	n := 1 + c.Intn(9)
+	if c.Chance(0.15) {
+		n = 10 + c.Intn(9)
+	}
+	dx := float64(c.Intn(8)) * 0.5
+	outer, holes := plate(n, dx)
+	switch c.Intn(5) {
+	case 0:
+		c.Count("nested:plate-settle")
+		return c20ops.Op{Kind: "Settle", A: data(outer.Append(holes)), F: []float64{float64(canvas.EvenOdd)}}
+	case 1:
+		c.Count("nested:plate-not-holes")
+		return c20ops.Op{Kind: "Not", A: data(outer), B: data(holes)}
+	case 2:
+		c.Count("nested:plate-xor-shifted")
+		o2, h2 := plate(n, dx+1.5)
+		return c20ops.Op{Kind: "Xor", A: data(outer.Not(holes)), B: data(o2.Not(h2))}
+	case 3:
+		c.Count("nested:rings")
+		p := &canvas.Path{}
+		k := 2 + c.Intn(7)
+		for i := 0; i < k; i++ {
+			s := float64(2*(k-i)) + dx
+			p = p.Append(canvas.Rectangle(s, s).Translate(-s/2, -s/2))
+		}
+		return c20ops.Op{Kind: "Settle", A: data(p), F: []float64{float64(canvas.EvenOdd)}}
+	default:
+		c.Count("nested:plate-or-islands")
+		_, islands := plate(n, dx+0.5)
+		return c20ops.Op{Kind: "Or", A: data(outer.Not(holes)), B: data(islands.Scale(0.3, 0.3).Translate(0.7*dx, 0))}
+	}
+}
+
 func genBatch(c *hc.Ctx, n int) []c20ops.Op {
 	ops := []c20ops.Op{{Kind: "SharedFontState"}}
 	var pool []hc.P2
@@ -389,6 +463,8 @@ func genBatch(c *hc.Ctx, n int) []c20ops.Op {
 		r := c.Float()
 		var op c20ops.Op
 		switch {
+		case r < 0.12:
+			op = genNested(c)
 		case r < 0.40:
 			op = c20ops.Op{Kind: []string{"And", "Or", "Xor", "Not", "DivideBy"}[c.Intn(5)], A: poly(0, 0, 1, 2, 3, 4), B: poly(0, 0, 1, 2, 3, 4)}
 		case r < 0.50:
@@ -479,9 +555,21 @@ func determinism(c *hc.Ctx, env *c20ops.Env, ops []c20ops.Op) {
 		rev[i] = len(ops) - 1 - i
 	}
 	compare(c, "reversed-order", ops, base, c20ops.RunSeq(env, ops, rev))
-	// 16 goroutines, twice
+	// 16 goroutines, twice; the second time under forced garbage collections (goroutines then take
+	// recycled pool objects from each other)
 	compare(c, "16-goroutines", ops, base, c20ops.RunConc(env, ops, 16))
-	compare(c, "16-goroutines", ops, base, c20ops.RunConc(env, ops, 16))
+	compare(c, "16-goroutines-gc", ops, base, c20ops.RunConcGC(env, ops, 16))
+	// the calls with nested results once more, each goroutine repeating its share
+	var nested []c20ops.Op
+	var nbase []string
+	for rep := 0; rep < 4; rep++ {
+		for i, op := range ops {
+			if op.Kind != "Render" && op.Kind != "TextBox" && op.Kind != "LoadFont" && op.Kind != "SharedFontState" && len(op.A) > 150 {
+				nested, nbase = append(nested, op), append(nbase, base[i])
+			}
+		}
+	}
+	compare(c, "16-goroutines-gc", nested, nbase, c20ops.RunConcGC(env, nested, 16))
 	// pools filled with junk objects
 	canvas.VerifPoolPoison(512, 0)
 	compare(c, "after-pool-junk", ops, base, c20ops.RunSeq(env, ops, order))
@@ -607,7 +695,7 @@ func raceRun(c *hc.Ctx, d dirs, env *c20ops.Env, ops []c20ops.Op) {
 		c.Fail("race-driver-unavailable", err.Error(), nil)
 		return
 	}
-	n := 60
+	n := 100
 	if c.Tier != "quick" {
 		n = 200
 	}
@@ -615,6 +703,16 @@ func raceRun(c *hc.Ctx, d dirs, env *c20ops.Env, ops []c20ops.Op) {
 		n = len(ops)
 	}
 	batch := append([]c20ops.Op(nil), ops[:n]...)
+	for i := 0; i < 32; i++ { // results with nested contours: the tracer walks prev chains
+		batch = append(batch, genNested(c))
+	}
+	nr := 0
+	for _, op := range ops[n:] { // distinct canvases with the ONE shared font, from several goroutines
+		if (op.Kind == "Render" || op.Kind == "TextBox") && nr < 24 {
+			batch = append(batch, op)
+			nr++
+		}
+	}
 	for i := 0; i < 16; i++ {
 		batch = append(batch, c20ops.Op{Kind: "LoadFont"}, c20ops.Op{Kind: "LoadNoname"}, c20ops.Op{Kind: "FindSystemFont", S: "DejaVu Serif"})
 	}
